@@ -44,6 +44,32 @@ fn omask(bw: usize) -> u128 {
     }
 }
 
+/// the literal lists of the `bit_field_vec![w; x, y, ...]` form exercised by `macro_lit`
+const MACRO_LITS: &[&[usize]] = &[&[0], &[1, 0, 3, 2], &[5, 4, 7, 1, 0, 2, 6, 3, 7], &[usize::MAX, 0, usize::MAX]];
+
+/// the real `bit_field_vec!` forms; `None` = not one of the literal lists (nothing is built)
+fn real_macro(form: &str, bw: usize, vals: &[u128], fill: u128) -> Option<BitFieldVec<usize>> {
+    Some(match form {
+        "macro_new" => sux::bit_field_vec![bw],
+        "macro_fill" => sux::bit_field_vec![bw => fill as usize; vals.len()],
+        "macro_fill3" => sux::bit_field_vec![bw; vals.len(); fill as usize],
+        _ => {
+            let v: Vec<usize> = vals.iter().map(|x| *x as usize).collect();
+            if v == MACRO_LITS[0] {
+                sux::bit_field_vec![bw; 0]
+            } else if v == MACRO_LITS[1] {
+                sux::bit_field_vec![bw; 1, 0, 3, 2]
+            } else if v == MACRO_LITS[2] {
+                sux::bit_field_vec![bw; 5, 4, 7, 1, 0, 2, 6, 3, 7]
+            } else if v == MACRO_LITS[3] {
+                sux::bit_field_vec![bw; usize::MAX, 0, usize::MAX]
+            } else {
+                panic!("macro_lit: not a literal list of the table")
+            }
+        }
+    })
+}
+
 macro_rules! bfv_impl {
     ($name:ident, $W:ty, $atomic:tt) => {
         mod $name {
@@ -147,9 +173,15 @@ macro_rules! bfv_impl {
                         let (bw, v, n) = (num(1), val(2), num(3));
                         s.oa = Orc { bw, v: vec![v; n] };
                         let r = catch(|| {
-                            let mut x = V::with_capacity(bw, n);
-                            x.resize(n, v as $W);
-                            s.a = x;
+                            if std::any::TypeId::of::<$W>() == std::any::TypeId::of::<usize>() {
+                                // the real `bit_field_vec![w => v; n]`
+                                let (b, w, l) = real_macro("macro_fill", bw, &vec![v; n], v).unwrap().into_raw_parts();
+                                s.a = unsafe { V::from_raw_parts(b.into_iter().map(|x| x as $W).collect(), w, l) };
+                            } else {
+                                let mut x = V::with_capacity(bw, n);
+                                x.resize(n, v as $W);
+                                s.a = x;
+                            }
                         });
                         (r.map(|_| "ok".into()), "ok".into())
                     }
@@ -305,6 +337,220 @@ macro_rules! bfv_impl {
                             fmt_list(out)
                         });
                         (r.map(|x| format!("ok {}", x)), o)
+                    }
+
+                    // ---- type-aware API coverage (API_COVERAGE_A.md) ----
+                    "macro_new" | "macro_fill3" | "macro_lit" => {
+                        // the real `bit_field_vec!` forms (the macro builds `BitFieldVec<usize>`)
+                        grow = true;
+                        let bw = num(1);
+                        let (vals, form): (Vec<u128>, u8) = match t[0] {
+                            "macro_new" => (vec![], 0),
+                            "macro_fill3" => (vec![val(3); num(2)], 1),
+                            _ => (parse_list(t[2]), 2),
+                        };
+                        let mut o = "ok";
+                        s.oa = Orc { bw, v: vec![] };
+                        for v in &vals {
+                            if v & omask(bw) == *v && fits_w(*v) {
+                                s.oa.v.push(*v);
+                            } else {
+                                o = "panic";
+                                break;
+                            }
+                        }
+                        if form == 1 && !(val(3) & omask(bw) == val(3) && fits_w(val(3))) {
+                            o = "panic"; // `resize` rejects the value first, whatever the length
+                        }
+                        if bw > 64 {
+                            o = "panic"; // the macro builds a `BitFieldVec<usize>`
+                        }
+                        let r = catch(|| {
+                            if let Some(x) = real_macro(t[0], bw, &vals, if form == 1 { val(3) } else { 0 }) {
+                                let (b, w, l) = x.into_raw_parts();
+                                s.a = unsafe { V::from_raw_parts(b.into_iter().map(|x| x as $W).collect(), w, l) };
+                            }
+                        });
+                        // a panic inside the macro leaves register a as it was: the oracle must too
+                        if r.is_none() {
+                            s.oa = Orc { bw: before_bw, v: (0..before_len).map(|i| raw_val(&before_words, WBITS, before_bw, i)).collect() };
+                        }
+                        (r.map(|_| "ok".into()), o.into())
+                    }
+                    "anew" => {
+                        grow = true;
+                        let (bw, n) = (num(1), num(2));
+                        s.oa = Orc { bw, v: vec![0; n] };
+                        (catch(|| s.a = anew(bw, n)).map(|_| "ok".into()), "ok".into())
+                    }
+                    "from_slice_x" => {
+                        // `from_slice` from a bit-field vector of another word type (u128): the only way
+                        // to reach the "does not fit" error
+                        grow = true;
+                        let vs = parse_list(t[1]);
+                        let bw = vs.iter().map(|v| if *v == 0 { 1 } else { 128 - v.leading_zeros() as usize }).max().unwrap_or(0);
+                        let o = if bw > WBITS { "panic" } else { s.oa = Orc { bw, v: vs.clone() }; "ok" };
+                        let r = catch(|| {
+                            let src: BitFieldVec<u128, Vec<u128>> = BitFieldVec::from_slice(&vs).unwrap();
+                            V::from_slice(&src)
+                        });
+                        match r {
+                            Some(Ok(v)) => {
+                                s.a = v;
+                                (Some("ok".into()), o.into())
+                            }
+                            Some(Err(_)) => (Some("panic".into()), o.into()),
+                            None => (None, o.into()),
+                        }
+                    }
+                    "addr_of" => {
+                        let i = num(1);
+                        let nw = s.a.as_slice().len();
+                        let o = match i.checked_mul(s.oa.bw) {
+                            Some(p) if p / WBITS < nw => format!("ok {}", p / WBITS),
+                            _ => "panic".into(),
+                        };
+                        let r = catch(|| {
+                            let p = s.a.addr_of(i) as usize;
+                            (p - s.a.as_slice().as_ptr() as usize) / std::mem::size_of::<$W>()
+                        });
+                        (r.map(|x| format!("ok {}", x)), o)
+                    }
+                    "set_len" => {
+                        grow = true;
+                        let n = num(1);
+                        if n.saturating_mul(s.oa.bw) <= before_words.len() * WBITS {
+                            s.oa.v = (0..n).map(|i| raw_val(&before_words, WBITS, before_bw, i)).collect();
+                            (catch(|| unsafe { s.a.set_len(n) }).map(|_| "ok".into()), "ok".into())
+                        } else {
+                            (Some("out-of-contract".into()), "out-of-contract".into())
+                        }
+                    }
+                    "get_unchecked" => {
+                        let i = num(1);
+                        if i < s.oa.v.len() {
+                            (
+                                catch(|| unsafe { BitFieldSlice::get_unchecked(&s.a, i) }).map(|x| format!("ok {}", x)),
+                                format!("ok {}", s.oa.v[i]),
+                            )
+                        } else {
+                            (Some("out-of-contract".into()), "out-of-contract".into())
+                        }
+                    }
+                    "set_unchecked" => {
+                        let (i, v) = (num(1), val(2));
+                        if i < s.oa.v.len() && v & omask(s.oa.bw) == v && fits_w(v) {
+                            s.oa.v[i] = v;
+                            (
+                                catch(|| unsafe { BitFieldSliceMut::set_unchecked(&mut s.a, i, v as $W) }).map(|_| "ok".into()),
+                                "ok".into(),
+                            )
+                        } else {
+                            (Some("out-of-contract".into()), "out-of-contract".into())
+                        }
+                    }
+                    "get_unaligned_unchecked" => {
+                        // called only under its documented contract; otherwise the reply is that of
+                        // the checked variant (`panic`) without any call
+                        let i = num(1);
+                        let bw = s.oa.bw;
+                        let adm = bw <= WBITS - 8 + 2 || bw == WBITS - 8 + 4 || bw == WBITS;
+                        let padded = (i.saturating_mul(bw)) / 8 + WBITS / 8 <= s.a.as_slice().len() * (WBITS / 8);
+                        if i < s.oa.v.len() && adm && padded {
+                            (
+                                catch(|| unsafe { s.a.get_unaligned_unchecked(i) }).map(|x| format!("ok {}", x)),
+                                format!("ok {}", s.oa.v[i]),
+                            )
+                        } else {
+                            (Some("panic".into()), "panic".into())
+                        }
+                    }
+                    "mask" => {
+                        // the three accessors of the mask: inherent, `BitFieldSliceMut::mask`, atomic form
+                        let r = catch(|| {
+                            let m1 = V::mask(&s.a) as u128;
+                            let m2 = BitFieldSliceMut::mask(&s.a) as u128;
+                            let m3 = amask(&mut s.a) as u128;
+                            if m1 == m2 && m2 == m3 { format!("ok {}", m1) } else { format!("ok {}/{}/{}", m1, m2, m3) }
+                        });
+                        (r, format!("ok {}", omask(s.oa.bw)))
+                    }
+                    "iter_hint" | "into_iter_hint" => {
+                        // `ExactSizeIterator::len` / `size_hint` of the checked iterator after `j` steps
+                        let (k, j) = (num(1), num(2));
+                        let o = if k <= s.oa.v.len() {
+                            let at = (k + j).min(s.oa.v.len());
+                            let rem = s.oa.v.len() - at;
+                            format!("ok {} {} {} {}", rem, rem, rem,
+                                if rem > 0 { s.oa.v[at].to_string() } else { "none".to_string() })
+                        } else {
+                            "panic".into()
+                        };
+                        let r = catch(|| {
+                            let mut it = if t[0] == "iter_hint" { s.a.iter_from(k) } else { IntoIteratorFrom::into_iter_from(&s.a, k) };
+                            for _ in 0..j {
+                                it.next();
+                            }
+                            let l = ExactSizeIterator::len(&it);
+                            let (lo, hi) = it.size_hint();
+                            let nx = it.next();
+                            format!("ok {} {} {} {}", l, lo, hi.map(|x| x.to_string()).unwrap_or("inf".into()),
+                                nx.map(|x| x.to_string()).unwrap_or("none".into()))
+                        });
+                        (r, o)
+                    }
+                    "into_iter" => (
+                        catch(|| fmt_list((&s.a).into_iter())).map(|x| format!("ok {}", x)),
+                        format!("ok {}", fmt_list(s.oa.v.iter())),
+                    ),
+                    "word_set" => {
+                        // raw write through `as_mut_slice` (safe indexing)
+                        grow = true;
+                        let (j, x) = (num(1), val(2));
+                        let o = if j < before_words.len() && fits_w(x) {
+                            let mut ws = before_words.clone();
+                            ws[j] = x;
+                            s.oa.v = (0..before_len).map(|i| raw_val(&ws, WBITS, before_bw, i)).collect();
+                            "ok"
+                        } else {
+                            "panic"
+                        };
+                        (catch(|| s.a.as_mut_slice()[j] = x as $W).map(|_| "ok".into()), o.into())
+                    }
+                    "svm_aset" => {
+                        // caller-supplied storage `&mut [W]` between guard words, seen through the `From`
+                        // glue `BitFieldVec<W, &mut [W]>` -> `AtomicBitFieldVec<W, &mut [A]>` -> back
+                        let (i, v) = (num(1), val(2));
+                        let o = if i < s.oa.v.len() && v & omask(s.oa.bw) == v && fits_w(v) {
+                            s.oa.v[i] = v;
+                            "ok"
+                        } else {
+                            "panic"
+                        };
+                        let wsv: Vec<$W> = s.a.as_slice().to_vec();
+                        let (bw, len) = (s.a.bit_width(), s.a.len());
+                        let mut buf: Vec<$W> = vec![<$W>::MAX / 5; 1];
+                        buf.extend_from_slice(&wsv);
+                        buf.push(<$W>::MAX / 3);
+                        let n = wsv.len();
+                        let r = catch(|| {
+                            let view: BitFieldVec<$W, &mut [$W]> = unsafe { BitFieldVec::from_raw_parts(&mut buf[1..1 + n], bw, len) };
+                            svm_aset_obs(view, i, v as $W)
+                        });
+                        if buf[0] != <$W>::MAX / 5 || buf[n + 1] != <$W>::MAX / 3 {
+                            ctx.check_oracle("guard words untouched", "guard word changed by svm_aset");
+                        }
+                        s.a = unsafe { V::from_raw_parts(buf[1..1 + n].to_vec(), bw, len) };
+                        match r {
+                            Some(Some(bad)) => (Some(format!("ok {}", bad)), o.into()),
+                            Some(None) => (Some("ok".into()), o.into()),
+                            None => (None, o.into()),
+                        }
+                    }
+                    "apar_reset" | "areset_dep" => {
+                        s.oa.v.iter_mut().for_each(|x| *x = 0);
+                        let r = if t[0] == "apar_reset" { catch(|| apar_reset(&mut s.a)) } else { catch(|| areset_dep(&mut s.a)) };
+                        (r.map(|_| "ok".into()), "ok".into())
                     }
                     "sv_get" | "sv_iter" | "sv_rev_iter" | "sv_eq" | "sv_unaligned" | "sv_atomic" => {
                         // the same contents through BitFieldVec<W, &[W]> over caller-supplied storage
@@ -512,7 +758,18 @@ macro_rules! bfv_impl {
                         let b: BitFieldVec<$W, Box<[$W]>> = v.into();
                         b.into()
                     }
-                    _ => conv_atomic(v),
+                    "rawparts" => {
+                        let (b, w, l) = v.into_raw_parts();
+                        unsafe { V::from_raw_parts(b, w, l) }
+                    }
+                    "map" => {
+                        // `map` onto another backend type (same word type, same contents)
+                        let b: BitFieldVec<$W, Box<[$W]>> = unsafe { v.map(|x| x.into_boxed_slice()) };
+                        b.into()
+                    }
+                    "atomic" => conv_atomic(v, "atomic"),
+                    "boxatomic" | "arawparts" => conv_atomic(v, kind),
+                    _ => panic!("unknown conversion {}", kind),
                 };
             }
         }
@@ -538,9 +795,52 @@ macro_rules! bfv_impl {
         fn areset(a: &mut V) {
             with_atomic(a, |at| at.reset_atomic(Ordering::Relaxed))
         }
-        fn conv_atomic(v: V) -> V {
-            let at: AV = v.into();
+        fn conv_atomic(v: V, kind: &str) -> V {
+            match kind {
+                "boxatomic" => {
+                    let b: BitFieldVec<$W, Box<[$W]>> = v.into();
+                    let at: AtomicBitFieldVec<$W, Box<[<$W as common_traits::IntoAtomic>::AtomicType]>> = b.into();
+                    let b: BitFieldVec<$W, Box<[$W]>> = at.into();
+                    b.into()
+                }
+                "arawparts" => {
+                    let at: AV = v.into();
+                    let (b, w, l) = at.into_raw_parts();
+                    let at: AV = unsafe { AtomicBitFieldVec::from_raw_parts(b, w, l) };
+                    at.into()
+                }
+                _ => {
+                    let at: AV = v.into();
+                    at.into()
+                }
+            }
+        }
+        fn anew(bw: usize, n: usize) -> V {
+            let at: AV = AtomicBitFieldVec::<$W>::new(bw, n);
             at.into()
+        }
+        fn amask(a: &mut V) -> $W {
+            with_atomic(a, |at| at.mask())
+        }
+        fn apar_reset(a: &mut V) {
+            with_atomic(a, |at| at.par_reset_atomic(Ordering::Relaxed))
+        }
+        #[allow(deprecated)]
+        fn areset_dep(a: &mut V) {
+            with_atomic(a, |at| at.reset(Ordering::Relaxed))
+        }
+        /// `set_atomic(i, v)` through the atomic form of a `&mut [W]` view and back; `Some(text)` if
+        /// the round trip changed length / width or the value read back differs
+        fn svm_aset_obs(view: BitFieldVec<$W, &mut [$W]>, i: usize, v: $W) -> Option<String> {
+            let (n, bw) = (view.len(), view.bit_width());
+            let av: AtomicBitFieldVec<$W, &mut [<$W as common_traits::IntoAtomic>::AtomicType]> = view.into();
+            av.set_atomic(i, v, Ordering::Relaxed);
+            let back: BitFieldVec<$W, &mut [$W]> = av.into();
+            if back.len() != n || back.bit_width() != bw || back.get(i) != v {
+                Some(format!("roundtrip len {} bw {} val {}", back.len(), back.bit_width(), back.get(i)))
+            } else {
+                None
+            }
         }
         /// the atomic view of a BORROWED slice view (what one gets from an eps-copy / mmap-loaded
         /// vector) and back: "<len> <bit_width> <values read atomically> <values after converting back>"
@@ -562,8 +862,24 @@ macro_rules! bfv_impl {
         fn areset(a: &mut V) {
             a.reset()
         }
-        fn conv_atomic(v: V) -> V {
+        fn conv_atomic(v: V, _kind: &str) -> V {
             v
+        }
+        fn anew(bw: usize, n: usize) -> V {
+            V::new(bw, n)
+        }
+        fn amask(a: &mut V) -> $W {
+            V::mask(a)
+        }
+        fn apar_reset(a: &mut V) {
+            a.par_reset()
+        }
+        fn areset_dep(a: &mut V) {
+            a.reset()
+        }
+        fn svm_aset_obs(mut view: BitFieldVec<$W, &mut [$W]>, i: usize, v: $W) -> Option<String> {
+            view.set(i, v);
+            None
         }
         fn sv_atomic_obs(view: BitFieldVec<$W, &[$W]>) -> String {
             format!("{} {} {} {} {} {}", view.len(), view.bit_width(), fmt_list(view.iter()), view.len(), view.bit_width(), fmt_list(view.iter()))
@@ -749,7 +1065,22 @@ fn gen_ctor(ctx: &mut Ctx, wt: &str, w: usize) -> String {
         }
         9 if wt == "usize" => {
             let v = gen_val(ctx, bw, w) & omask(bw);
-            format!("macro_fill {} {} {}", bw, v, n)
+            match ctx.rng.below(4) {
+                0 => format!("macro_fill {} {} {}", bw, v, n),
+                1 => format!("macro_fill3 {} {} {}", bw, n, gen_val(ctx, bw, w)),
+                2 => format!("macro_new {}", bw),
+                _ => {
+                    let l = MACRO_LITS[ctx.rng.usize_below(MACRO_LITS.len())];
+                    format!("macro_lit {} {}", bw, fmt_list(l.iter()))
+                }
+            }
+        }
+        10 if wt != "u128" && ctx.rng.bool() => format!("anew {} {}", bw, n),
+        11 if ctx.rng.bool() => {
+            // from a slice of another word type: values up to 128 bits (too wide ones are rejected)
+            let k = ctx.rng.usize_below(10);
+            let vb = if ctx.rng.chance(1, 3) { 1 + ctx.rng.usize_below(128) } else { 1 + ctx.rng.usize_below(w) };
+            format!("from_slice_x {}", gen_vals(ctx, k, vb, 128))
         }
         _ => {
             let k = ctx.rng.usize_below(12);
@@ -761,7 +1092,7 @@ fn gen_ctor(ctx: &mut Ctx, wt: &str, w: usize) -> String {
 fn gen_op(ctx: &mut Ctx, s: &AnyS, w: usize, atomic: bool) -> String {
     let (bw, len, _nw) = cur(s);
     loop {
-        let op = match ctx.rng.below(40) {
+        let op = match ctx.rng.below(46) {
             0..=4 => format!("push {}", gen_val(ctx, bw, w)),
             5 | 6 => "pop".into(),
             7..=11 => format!("set {} {}", gen_index(ctx, len), gen_val(ctx, bw, w)),
@@ -794,7 +1125,7 @@ fn gen_op(ctx: &mut Ctx, s: &AnyS, w: usize, atomic: bool) -> String {
             28 => "eq".into(),
             29 => "clone".into(),
             30 => "swapab".into(),
-            31 => format!("conv {}", ctx.rng.pick(&["box", "atomic"])),
+            31 => format!("conv {}", ctx.rng.pick(&["box", "atomic", "rawparts", "map", "boxatomic", "arawparts"])),
             32 if atomic => format!("aset {} {}", gen_index(ctx, len), gen_val(ctx, bw, w)),
             33 if atomic => format!("aget {}", gen_index(ctx, len)),
             34 if atomic => "areset".into(),
@@ -806,6 +1137,36 @@ fn gen_op(ctx: &mut Ctx, s: &AnyS, w: usize, atomic: bool) -> String {
                 let c = ctx.rng.next_u64() as u128;
                 format!("apply {} {}", a, c)
             }
+            // type-aware API coverage
+            40 => match ctx.rng.below(4) {
+                0 => format!("addr_of {}", gen_index(ctx, len)),
+                1 => "mask".into(),
+                2 => "into_iter".into(),
+                _ => {
+                    // within the contract of `set_len`: up to what the backend can hold
+                    let cap = if bw == 0 { len + 5 } else { _nw * w / bw };
+                    format!("set_len {}", if ctx.rng.bool() { cap } else { ctx.rng.usize_below(cap + 1) })
+                }
+            },
+            41 if len > 0 => {
+                let r = ctx.rng.usize_below(len);
+                let i = *ctx.rng.pick(&[0, len - 1, r, r]);
+                match ctx.rng.below(3) {
+                    0 => format!("get_unchecked {}", i),
+                    1 => format!("set_unchecked {} {}", i, gen_val(ctx, bw, w) & omask(bw)),
+                    _ => format!("get_unaligned_unchecked {}", i),
+                }
+            }
+            42 => {
+                let k = gen_index(ctx, len).min(len + 2);
+                format!("{} {} {}", ctx.rng.pick(&["iter_hint", "into_iter_hint"]), k, ctx.rng.usize_below(len + 3))
+            }
+            43 => {
+                let x = (((ctx.rng.word() as u128) << 64) | ctx.rng.word() as u128) & omask(w);
+                format!("word_set {} {}", ctx.rng.usize_below(_nw + 1), x)
+            }
+            44 => format!("svm_aset {} {}", gen_index(ctx, len), gen_val(ctx, bw, w)),
+            45 if atomic => ctx.rng.pick(&["apar_reset", "areset_dep"]).to_string(),
             _ => continue,
         };
         return op;
@@ -992,6 +1353,28 @@ fn directed(ctx: &mut Ctx) {
                     "sv_rev_iter".into(),
                     "sv_eq".into(),
                     "sv_atomic".into(),
+                    "mask".into(),
+                    "addr_of 0".into(),
+                    format!("addr_of {}", per),
+                    "addr_of 100000".into(),
+                    "get_unchecked 1".into(),
+                    format!("set_unchecked 3 {}", m),
+                    "get_unaligned_unchecked 1".into(),
+                    "iter_hint 0 0".into(),
+                    "iter_hint 2 1".into(),
+                    "into_iter_hint 1 100".into(),
+                    "iter_hint 1000 0".into(),
+                    "into_iter".into(),
+                    format!("svm_aset 2 {}", m / 3),
+                    format!("svm_aset 1000 {}", m),
+                    "conv rawparts".into(),
+                    "conv map".into(),
+                    "conv boxatomic".into(),
+                    "conv arawparts".into(),
+                    "set_len 2".into(),
+                    "iter".into(),
+                    "set_len 6".into(),
+                    "iter".into(),
                     "clone".into(),
                     "eq".into(),
                     "apply 3 7".into(),
@@ -1017,6 +1400,10 @@ fn directed(ctx: &mut Ctx) {
                     "rev_iter".into(),
                     "pop".into(),
                     "apply 1 1".into(),
+                    format!("word_set 0 {}", omask(w) / 7),
+                    "word_set 1000 1".into(),
+                    "apar_reset".into(),
+                    "areset_dep".into(),
                 ];
                 for o in &ops {
                     if wt == "u128" && (o.starts_with("aset") || o.starts_with("aget")) {
@@ -1025,6 +1412,32 @@ fn directed(ctx: &mut Ctx) {
                     exec(ctx, &mut s, o);
                 }
                 ctx.shape(format!("directed:{}:{}:{}", wt, bw, ctor.split(' ').next().unwrap()));
+            }
+        }
+        if wt == "usize" {
+            // every form of the real `bit_field_vec!` macro at every directed width
+            for &bw in &widths {
+                let m = omask(bw);
+                let mut ctors = vec![
+                    format!("macro_new {}", bw),
+                    format!("macro_fill {} {} 5", bw, m),
+                    format!("macro_fill {} 0 0", bw),
+                    format!("macro_fill3 {} 5 {}", bw, m),
+                    format!("macro_fill3 {} 0 {}", bw, if bw < w { m + 1 } else { m }),
+                ];
+                for l in MACRO_LITS {
+                    ctors.push(format!("macro_lit {} {}", bw, fmt_list(l.iter())));
+                }
+                for c in ctors {
+                    ctx.case();
+                    let mut s = fresh(wt);
+                    exec(ctx, &mut s, &format!("wordtype {} {}", wt, w));
+                    exec(ctx, &mut s, &c);
+                    for o in ["iter".to_string(), format!("push {}", m), "iter".into(), "mask".into(), "rev_iter".into()] {
+                        exec(ctx, &mut s, &o);
+                    }
+                    ctx.shape(format!("directed-macro:{}:{}", bw, c.split(' ').next().unwrap()));
+                }
             }
         }
         for _ in 0..40 {
